@@ -1,7 +1,7 @@
 (* Property C12: eager start -- eligible jobs start immediately; a free window slot is never wasted.
    Only property theorems here. Model R, level 2 (timing: the clock moves only at quiescent points). *)
 From AJ Require Import Common.Util Run.RModel Run.RFacts Run.RFacts2 Run.RInv Run.RMon Run.RWin Run.RProps1
-  Run.RProps3 Run.RProps4 Run.RShut1 Run.RShut2 Run.RTime Run.RPrompt Props.RExample Run.RSchedDef Run.RFlatten Run.RSolve Run.RSched Run.RSchedTop.
+  Run.RProps3 Run.RProps4 Run.RShut1 Run.RShut2 Run.RTime Run.RPrompt Props.RExample Run.RSchedDef Run.RFlatten Run.RSolve Run.RSolveH Run.RSched Run.RSchedTop.
 
 (* Time passes only through ETick, and (level 2) only in a quiescent state: no job, run or handler
    has anything left to do at the current instant. *)
@@ -100,6 +100,26 @@ Theorem C12_running_between : forall c S E h s x, wf c = true -> plain c = true 
   (S x < now s)%N -> (now s < E x)%N -> st (Jb s x) = Running.
 Proof. exact running_between. Qed.
 Print Assumptions C12_running_between.
+
+(* the same with shutdown handlers of any finite duration and timeouts that the schedule does not
+   reach: every job starts at the instant SofH c x computed from the tree alone (a nested requirement
+   being finished when its own run is, shutdown phase included) *)
+Theorem C12_runs_on_computed_scheduleH : forall c h s, wf c = true -> plainH c = true ->
+  slackH_ok c = true -> Reach 3 c h s -> calm c (EofH c) s ->
+  (forall x, x < njobs c -> x <> 0 -> on_schedule c (SofH c) (EofH c) s x) /\
+  (forall n, n < njobs c -> j_sched (jc c n) = true ->
+     let M := maxl (SofH c n) (map (EofH c) (members c n)) in
+     (ph (Rn s n) = PMain -> (SofH c n <= now s)%N /\ (now s <= M)%N) /\
+     (ph (Rn s n) = PShut WSuccess -> (M <= now s)%N /\ (now s <= M + shut_len c n)%N) /\
+     (ph (Rn s n) = POver -> (M + shut_len c n <= now s)%N /\ (n <> 0 -> (EofH c n <= now s)%N)) /\
+     okph (ph (Rn s n))).
+Proof. exact runs_on_computed_scheduleH. Qed.
+Print Assumptions C12_runs_on_computed_scheduleH.
+
+Theorem C12_scheduleH_unique : forall c S E S' E', wf c = true -> is_scheduleH c S E -> is_scheduleH c S' E' ->
+  forall x, x < njobs c -> S x = S' x /\ E x = E' x.
+Proof. exact scheduleH_unique. Qed.
+Print Assumptions C12_scheduleH_unique.
 
 (* non-vacuity of the closed form: a three-level plain tree (RSched.Example: root{1 (2s); 2 requires 1
    {3 (3s, raises, not critical); 4 requires 3 {5 (1s)}}}), its whole history accepted at level 3, and
